@@ -350,7 +350,14 @@ func oracleC31(v *View, vd *Verdict) {
 	}
 	vd.Trigger = true
 	exit, exited := cliExit(v)
-	refused := exited && strings.Contains(strings.ToLower(exit), "insecure")
+	// refusing to start = returning an error without having touched the network (whatever the wording)
+	didNet := len(clientTx(v, "cli")) > 0
+	for _, rec := range v.R.Hist {
+		if rec.Ch == "listener" && rec.Kind == "listen" {
+			didNet = true
+		}
+	}
+	refused := exited && exit != "nil" && exit != "" && !didNet
 	desc := strings.Join(cp.Args, " ")
 	for k, val := range cp.Env {
 		desc += " " + k + "=" + val
@@ -358,7 +365,9 @@ func oracleC31(v *View, vd *Verdict) {
 	if cp.Refuse && !refused {
 		vd.Add("C31", "C31/"+cp.Tool+"/not-refused", "%s started with credentials over plain UDP without --insecure: %s (exit %v %q)", cp.Tool, desc, exited, exit)
 	}
-	if !cp.Refuse && refused {
+	// (an allowed combination may still stop early for another reason, e.g. --dtls without a
+	// certificate: only an error that speaks of --insecure counts as a refusal there)
+	if !cp.Refuse && refused && strings.Contains(strings.ToLower(exit), "insecure") {
 		vd.Add("C31", "C31/"+cp.Tool+"/refused-although-allowed", "%s refused to start although the combination is allowed: %s (%q)", cp.Tool, desc, exit)
 	}
 	// nothing may reach the wire when the tool must refuse
